@@ -410,6 +410,7 @@ D(g, X, p, c, env) ==
          IF un.ok THEN un
          ELSE LET s == g[3]
                   rs == CASE Op(s) = "via" -> D(s[2], X, p, c, env)
+                          [] Op(s) = "nesteddelim" -> D(s[5], X, p, c, env)
                           [] Op(s) = "skipuntil" ->
                                LET r == DSkipUntil(s[2], s[3], X, p, c, env) IN
                                IF r.ok THEN [r EXCEPT !.val = VE("su")] ELSE r
@@ -423,8 +424,24 @@ D(g, X, p, c, env) ==
 RECURSIVE RunLen(_, _)
 RunLen(cls, w) == IF w # <<>> /\ InClass(cls, Head(w)) THEN 1 + RunLen(cls, Tail(w)) ELSE 0
 IdentLen(start, cont, w) == IF w # <<>> /\ InClass(start, Head(w)) THEN 1 + RunLen(cont, Tail(w)) ELSE -1
+(* nested_delimiters(start, end, others): exactly one balanced delimited region starting here: every   *)
+(* opening delimiter (of any listed pair) must be closed by its own closing delimiter, in nesting order; *)
+(* arg = <<start, end, <<o1, c1>>, ...>>.  NDScan(w, i, stack) = number of tokens up to and including   *)
+(* the delimiter that closes the outermost region, -1 if the region is never or wrongly closed.          *)
+NDPairs(arg) == {<<arg[1], arg[2]>>} \cup {arg[k] : k \in 3..Len(arg)}
+RECURSIVE NDScan(_, _, _, _)
+NDScan(arg, w, i, stk) ==
+  IF stk = <<>> THEN i - 1
+  ELSE IF i > Len(w) THEN -1
+  ELSE LET t == w[i] IN
+       IF \E pr \in NDPairs(arg) : pr[1] = t
+       THEN NDScan(arg, w, i + 1, <<(CHOOSE pr \in NDPairs(arg) : pr[1] = t)[2]>> \o stk)
+       ELSE IF \E pr \in NDPairs(arg) : pr[2] = t
+            THEN (IF t = Head(stk) THEN NDScan(arg, w, i + 1, Tail(stk)) ELSE -1)
+       ELSE NDScan(arg, w, i + 1, stk)
 TextMatch(name, arg, w) ==
-  CASE name = "ws" -> RunLen("ws", w)                              \* any run of whitespace, possibly empty
+  CASE name = "nd" -> IF w # <<>> /\ w[1] = arg[1] THEN NDScan(arg, w, 2, <<arg[2]>>) ELSE -1
+    [] name = "ws" -> RunLen("ws", w)                              \* any run of whitespace, possibly empty
     [] name = "iws" -> RunLen("iws", w)
     [] name = "nl" -> IF w = <<>> THEN -1                           \* one line terminator, CR LF counting as one
                       ELSE IF Len(w) >= 2 /\ w[1] = "R" /\ w[2] = "N" THEN 2
